@@ -179,12 +179,21 @@ theorem stored_fields_persist (steps : List Step) (hok : StepsOk steps) (e0 : En
   have p := (run_evolves e0 steps hok hi hs).persist o ho o' ho' hu
   exact ⟨p.otype, p.value, p.alg, p.len, p.format, p.subtype, p.isKey⟩
 
-/-- server-assigned attributes of a new object: owner, initial date, default policy name, Pre-Active -/
+/-- server-assigned attributes of a new object: owner, initial date, default policy name (for a request that did not
+set the name: one that set it to the EMPTY text stores the empty text - `policyGiven`; found by the end-to-end
+correspondence in round 8, modelled since round 11), Pre-Active -/
 theorem server_assigned (c : Ctx) (e : Engine) (o : Obj) :
     (finalize c e o).owner = e.identity.user ∧ (finalize c e o).initialDate = c.now ∧
-    (o.policy = "" → (finalize c e o).policy = "default") ∧ (finalize c e o).state = o.state := by
-  refine ⟨rfl, rfl, ?_, rfl⟩
-  intro h; simp [finalize, h]
+    (o.policy = "" → o.policyGiven = false → (finalize c e o).policy = "default") ∧
+    (o.policyGiven = true → (finalize c e o).policy = o.policy) ∧
+    (finalize c e o).policyGiven = false ∧ (finalize c e o).state = o.state := by
+  refine ⟨rfl, rfl, ?_, ?_, rfl, rfl⟩
+  · intro h h'; simp [finalize, h, h']
+  · intro h; simp [finalize, h]
+
+/-- a freshly constructed object carries no policy name of the request -/
+theorem new_object_policy_not_given (t : Nat) (v : String) : (newObj t v).policy = "" ∧ (newObj t v).policyGiven = false :=
+  ⟨rfl, rfl⟩
 
 /-- F-C05-a (witness): a SecretData object is always reported with key format Opaque. -/
 theorem secret_data_format_opaque (o : Obj) (h : o.otype = OT.secretData) (v u : String) (w : Bool) :
